@@ -15,6 +15,11 @@ namespace Primaite.Agents
 inductive Progress | pending | inProgress | finished
 deriving DecidableEq, Repr
 
+def Progress.name : Progress → String
+  | .pending => "PENDING" | .inProgress => "IN_PROGRESS" | .finished => "FINISHED"
+def Progress.val : Progress → Int
+  | .pending => 0 | .inProgress => 1 | .finished => 2
+
 /-- Python list indexing `l[i]` (negative indices count from the end); `none` = `IndexError`. -/
 def pyIndex {α} (l : List α) (i : Int) : Option α :=
   if 0 ≤ i then l[i.toNat]?
@@ -36,6 +41,16 @@ def Stage.all : List Stage :=
 
 /-- `MobileMalwareKillChain(n)`; `none` = `ValueError`. -/
 def Stage.ofVal? (n : Int) : Option Stage := Stage.all.find? (·.val == n)
+
+def Stage.name : Stage → String
+  | .download => "DOWNLOAD" | .install => "INSTALL" | .activate => "ACTIVATE" | .propagate => "PROPAGATE"
+  | .c2 => "COMMAND_AND_CONTROL" | .payload => "PAYLOAD" | .notStarted => "NOT_STARTED" | .succeeded => "SUCCEEDED"
+  | .failed => "FAILED"
+
+/-- The calls of `get_action`'s main path, in the order the model composes them (`getAction`, `bodies`). -/
+def dispatchOrder : List String :=
+  ["update_current_timestep", "_set_next_execution_timestep", "_tap_outcome_handler",
+   "_payload", "_c2c", "_propagate", "_activate", "_install", "_download", "_tap_start"]
 
 inductive HostRef | start | c2server
 deriving DecidableEq, Repr
@@ -368,6 +383,17 @@ def Stage.all : List Stage :=
    .notStarted, .succeeded, .failed]
 
 def Stage.ofVal? (n : Int) : Option Stage := Stage.all.find? (·.val == n)
+
+def Stage.name : Stage → String
+  | .reconnaissance => "RECONNAISSANCE" | .planning => "PLANNING" | .access => "ACCESS" | .manipulation => "MANIPULATION"
+  | .exploit => "EXPLOIT" | .embed => "EMBED" | .conceal => "CONCEAL" | .extract => "EXTRACT" | .erase => "ERASE"
+  | .notStarted => "NOT_STARTED" | .succeeded => "SUCCEEDED" | .failed => "FAILED"
+
+/-- The calls of `get_action` in the order the model composes them. -/
+def preGuard : List String := ["self._handle_login_response", "self._handle_change_password_response"]
+def dispatchOrder : List String :=
+  ["update_current_timestep", "_set_next_execution_timestep", "_tap_outcome_handler",
+   "_exploit", "_manipulation", "_access", "_planning", "_reconnaissance", "_tap_start"]
 
 inductive Kind | doNothing | changePwLocal | remoteLogin | remoteChangePw | remoteAcl
 deriving DecidableEq, Repr
